@@ -121,6 +121,21 @@ class Run(object):
     def violation(self, obligation, what, key=None, failing_input=None, solver_output=None, extra=None):
         """Report a failed obligation / failing input unless a known finding covers exactly it"""
         key = dict(key or {}, obligation=obligation)
+        smt2 = (solver_output or {}).get("smt2") if isinstance(solver_output, dict) else None
+        if failing_input is None and smt2 and obligation in self.obligations and any(t in obligation for t in getattr(self, "confirm_abstracted", ())) \
+                and re.search(r"\(declare-fun \|?(uf:|py_|attr:|attr_str:|in:|component:|opaque_truthy|opaque_is_none)[^()]*\(\s*[A-Za-z(]", smt2):
+            # (opt-in per contract, `run.confirm_abstracted`: exact functional contracts whose abstractions -- str.replace, an opaque
+            # callee -- are NOT part of what the contract quantifies over, and for which the check has targeted replay inputs;
+            # contracts that hold for EVERY interpretation of their classifier predicates, like C09's, are refuted by any model.)
+            # The counter-model interprets functions the engine leaves uninterpreted (str.replace, casefold, isdigit, an opaque
+            # callee ...) and no replay -- neither the model itself nor the targeted inputs of the check -- fails on the real code.
+            # Such a model may describe no execution at all (an equivalent rewrite that spells the abstracted call differently
+            # gets one too): undecided, not a VIOLATION.
+            ob = self.obligations[obligation]
+            ob["status"] = UNDECIDED
+            ob["detail"] = ("refuted only under an interpretation of uninterpreted functions, and no replay of the counter-model or of the check's targeted "
+                            "inputs fails on the real code: undecided, not a violation (%s)" % (ob.get("detail") or what or ""))[:600]
+            return False
         f = self.match_finding(key)
         if f is not None:
             if f not in [h[0] for h in self.known_hits]:
